@@ -762,6 +762,8 @@ R6_TABLE = [
     (r'Box<dyn Fn\(([^()]*)\)>', r'VxBoxFn<(\1)>'),
     (r'\.map_or\(0, \|v\| 1 \+ v\.encoded_size\(\)\)', '.vx_map_or_0_1_plus_encoded_size()'),
     (r'\b(?:MQTT|b"MQTT")\.as_ref\(\)\.encode\((\w+)\)', r'vx_encode_mqtt(\1)'),
+    (r'\b(?:(?:core|std)::)?(?:num::)?NonZeroU16::MIN\b', 'vx_nz16_min()'),
+    (r'\b(?:(?:core|std)::)?(?:num::)?NonZeroU16::MAX\b', 'vx_nz16_max()'),
 ]
 
 
@@ -1961,9 +1963,10 @@ def emit_block(unit, loc, dlines, tmpl_where):
             if not m3:
                 raise Unsupported('%s: bad iter_quant' % tmpl_where)
             iter_quants.append((m3.group(1), m3.group(2), m3.group(3)))
-        elif re.match(r'^ ?\S', raw) and st.split()[0] == 'subst':
-            m2 = re.match(r'subst\s+`(.*)`\s*=>\s*`(.*)`\s*$', st)
-            substs.append((m2.group(1), m2.group(2)))
+        elif re.match(r'^ ?\S', raw) and st.split()[0] in ('subst', 'subst?'):
+            # `subst?`: a renaming written for a form the code does not have at present (another way of writing the same call)
+            m2 = re.match(r'subst\??\s+`(.*)`\s*=>\s*`(.*)`\s*$', st)
+            substs.append((m2.group(1), m2.group(2), st.split()[0] == 'subst?'))
         else:
             rest.append(raw)
     if not name or not sig:
@@ -1996,7 +1999,7 @@ def emit_block(unit, loc, dlines, tmpl_where):
             return t
         sig = _brn(sig)
         fall = _brn(fall)
-        substs = [(_brn(a_), _brn(b_)) for a_, b_ in substs]
+        substs = [(_brn(q_[0]), _brn(q_[1])) + tuple(q_[2:]) for q_ in substs]
         rest = [_brn(l_) for l_ in rest]
         unit.rule_log.append({'rule': 'AID', 'before': 'block %s written for locals %s' % (name, ', '.join(sorted(blk_renames))), 'after': 'renamed to %s' % ', '.join(blk_renames[k] for k in sorted(blk_renames)), 'where': rel})
     if b_txt == '$':
@@ -2033,7 +2036,9 @@ def emit_block(unit, loc, dlines, tmpl_where):
         blk = body[ma.start():mb.end()]
     for recv_iter, elem_ty, spec_expr in iter_quants:
         blk = rule_R21_iter_quant(blk, recv_iter, elem_ty, spec_expr, unit, name, rel)
-    for a, b in substs:
+    for sub_ in substs:
+        a, b = sub_[0], sub_[1]
+        optional = len(sub_) > 2 and sub_[2]
         # whitespace-insensitive match of the text to rename; an awaited expression may be renamed to a
         # parameter that stands for its (arbitrary) result (R8)
         # `$1`..`$9` in the text to rename stand for one simple argument (no comma / parenthesis); they may be used
@@ -2043,6 +2048,8 @@ def emit_block(unit, loc, dlines, tmpl_where):
             return ''.join(('(?P<w%s>(?:[^,();{}=]|\\((?:[^()]|\\([^()]*\\))*\\))+?)' % q[1]) if re.match(r'^\$[1-9]$', q) else re.escape(q) for q in parts)
         rx = re.compile(r'\s*'.join(_tok(t) for t in re.findall(r'\$[1-9]|\w+|[^\w\s]', a)))
         hits = list(rx.finditer(blk))
+        if not hits and optional:
+            continue
         if not hits:
             # nothing to rename: the block no longer mentions this expression (logged; the contract decides)
             unit.lost_aids.append({'fn': name, 'aid': 'renaming of `%s` (not present in the block any more)' % a})
